@@ -25,13 +25,41 @@ import (
 )
 
 func TestMain(m *testing.M) {
+	// every compiled manifest leaves its one-off packages in the Go build cache: each test process compiles into a cache of
+	// its own (below the private cache directory the driver hands in and removes afterwards) and empties it every
+	// trimEvery compilations, so that the disk use of a run stays bounded (a thorough run filled 60 GB before)
+	if gc := os.Getenv("GOCACHE"); gc != "" {
+		own := filepath.Join(gc, fmt.Sprintf("p%d", os.Getpid()))
+		if os.MkdirAll(own, 0o755) == nil {
+			os.Setenv("GOCACHE", own)
+			ownCache = own
+		}
+	}
 	code := m.Run()
+	if ownCache != "" {
+		os.RemoveAll(ownCache)
+	}
 	stats.FlushAll()
 	if scratchRoot != "" {
 		chmodAll(scratchRoot)
 		os.RemoveAll(scratchRoot)
 	}
 	os.Exit(code)
+}
+
+const trimEvery = 40
+
+var (
+	ownCache string
+	compiled int
+)
+
+// trimCache empties this process' build cache every trimEvery compilations (nothing else compiles into it).
+func trimCache(mod string) {
+	compiled++
+	if ownCache != "" && compiled%trimEvery == 0 {
+		run(mod, "go", "clean", "-cache")
+	}
 }
 
 var (
@@ -259,6 +287,7 @@ func checkGen(rec *stats.Recorder, c genCase) (msg string, known string) {
 		}
 	}
 	// 3. compilable: library packages with go build, the all-imports package the way upstream compiles it
+	defer trimCache(mod)
 	pkgs, err := run(mod, "go", "list", "./"+filepath.Base(out0)+"/...")
 	if err != nil {
 		return failCompile(c, "go list failed on the generated tree", pkgs)
